@@ -189,6 +189,7 @@ func chunkOldPrimary(ctx context.Context, name string, fileSizeLimit int64) (uin
 		written += sizePrefixSize + int64(size)
 		if written >= fileSizeLimit {
 			if err = writer.Flush(); err != nil {
+				outFile.Close()
 				return 0, err
 			}
 			outFile.Close()
@@ -209,6 +210,7 @@ func chunkOldPrimary(ctx context.Context, name string, fileSizeLimit int64) (uin
 	}
 	if written != 0 {
 		if err = writer.Flush(); err != nil {
+			outFile.Close()
 			return 0, err
 		}
 	}
